@@ -26,7 +26,7 @@ NEEDS_DTYPES = True
 RULE = (
     "corpus (witnesses of F6) first; exhaustive: every string of <=4 (quick) / <=5 (thorough) tokens over a 21-symbol alphabet "
     "{a b 1 2 + - * / ^ ( ) , min isqrt = ... max x_1 07 space ?} as a one-dimension shape; multi-dimension shapes with 0-3 markers; "
-    "grammar-directed mutation (delete / duplicate / swap / insert token, printable-ASCII noise) of valid strings; every accepted string is "
+    "grammar-directed mutation (delete / duplicate / swap / insert token, printable-ASCII noise) of valid strings; self-referential named dimensions through every operator and function; malformed strings met twice; every accepted string is "
     "then USED in a context (array of matching rank, identifiers bound) to see that nothing parse-related surfaces later. "
     "non-trivial = distinct string that is outside the documented grammar (independent recogniser in Lean: Spec/Grammar.lean)"
 )
@@ -59,6 +59,19 @@ def cases(tier, rng, run):
         if "\t" in e or "\n" in e:
             continue
         out.append(Case(f"SHAPE\t{e}", "mut"))
+    # self-reference: a named dimension whose own name occurs in its expression — through every operator and function, nested in
+    # groups, as the only operand of the unary function, next to other dimensions
+    for v in ("n", "x_1"):
+        bodies = [v, f"({v})", f"{v}+1", f"1+{v}", f"{v}-a", f"a*{v}", f"{v}/2", f"2^{v}", f"{v}^2", f"isqrt({v})", f"isqrt(({v}))", f"isqrt({v})+1", f"min({v},a)", f"max(a,{v})",
+                  f"min(a,isqrt({v}))", f"(a+{v})*2", f"a+b*{v}", f"isqrt(isqrt({v}))"]
+        for bdy in bodies:
+            for ctx_ in ("{}", "b {}", "{} c", "*g {}"):
+                out.append(Case("SHAPE\t" + ctx_.format(f"{v}={bdy}"), "selfref"))
+    # the same malformed string met twice (a remembered result of the first attempt must not let the second one through)
+    for s_ in ("dim+", "a+*b", "(b)(c)", "2(n)", "min(x)", "k-", "a b+", "n=isqrt(n)"):
+        out.append(Case(f"SHAPE\t{s_}", "twice"))
+        out.append(Case(f"SHAPE\t{s_}", "twice"))
+        out.append(Case(f"USE\t{s_}", "twice"))
     # use what is accepted (decided on the implementation's answer in a second pass: see custom)
     return out
 
